@@ -74,4 +74,24 @@ def run(ctx):
         if m in F.fns:
             ps = panic_sites(ctx.body(m))
             ctx.ob("is_leap_year|panic-free", not ps, f"panic-capable constructs in is_leap_year: {ps}", ctx.body(m).loc())
+    ctx.rule("T9 constants of the Gregorian leap-year rule: UtcDateTime::is_leap_year tests divisibility by 4, 100 and 400 (as "
+             "is_multiple_of / % constants), or the equivalent bit form (multiple of 25, masks 3 and 15) — any other constant set is a different "
+             "calendar than the 400/100/4-year cycles from_instant uses")
+    ly = [x for x in F.fns if x.endswith("UtcDateTime::is_leap_year")]
+    ctx.ob("is_leap_year|anchor", len(ly) == 1, f"is_leap_year: {len(ly)}")
+    for x in ly[:1]:
+        b = ctx.body(x)
+        ks = set()
+        for bb, t in b.calls(r"::is_multiple_of$"):
+            v = b.const_value(t["args"][1])
+            if v is not None:
+                ks.add(v)
+        for i in range(b.n):
+            for st in b.stmts(i):
+                if st["k"] == "=" and st["rv"]["k"] == "bin" and re.match(r"Rem|BitAnd|Div", st["rv"]["op"]):
+                    v = b.const_value(st["rv"]["b"])
+                    if v is not None:
+                        ks.add(v)
+        ok = ks in ({4, 100, 400}, {25, 3, 15}, {4, 25, 16}, {4, 100, 16})
+        ctx.ob("is_leap_year|gregorian-constants", ok, f"divisibility / mask constants used: {sorted(ks)}", b.loc())
     ctx.assume("calendar arithmetic, monotonicity and round-trips are value-level and not decided")
